@@ -156,7 +156,10 @@ pub fn escaped_rust_name(name: String) -> String {
         | "fn" | "for" | "if" | "impl" | "in" | "let" | "loop" | "match" | "mod" | "move"
         | "mut" | "pub" | "ref" | "return" | "self" | "Self" | "static" | "struct" | "super"
         | "trait" | "true" | "type" | "unsafe" | "use" | "where" | "while" | "async" | "await"
-        | "dyn" | "try" | "macro_rules" | "union" | "'static" => name + "_",
+        | "dyn" | "try" | "macro_rules" | "union" | "'static"
+        // reserved for future use: not valid identifiers either
+        | "abstract" | "become" | "box" | "do" | "final" | "macro" | "override" | "priv" | "typeof"
+        | "unsized" | "virtual" | "yield" => name + "_",
         _ => name,
     }
 }
